@@ -257,6 +257,71 @@ example :
   · intro o s evs o' h; simpa [demo] using h
   · intro o s evs h; simp [demo] at h
 
+/-! ### Whole histories: any number of requests, each completed or cut anywhere -/
+
+/-- **A history with faults is, for audit log and state, a fault-free history of exactly the
+requests that reached the log.**  For every sequence of requests, each run to completion or
+cut at any mutation (crash + restart, or one failed write), the log – and therefore the
+reloaded state of the entity – equals that of running, without any fault, just the requests
+whose record was written; a cut request is completely present or completely absent, and
+what other requests did to the published-object set or the task queue in between has no
+influence on it. -/
+theorem hist_log_eq_clean (sys : Sys S C Ev Er O T) (h : List (C × Option Nat))
+    (w w2 : World C Ev Er O T) (hw : w.log = w2.log) :
+    (runHist sys w h).log = (runClean sys w2 (survivors sys w h)).log := by
+  induction h generalizing w w2 with
+  | nil => simpa [runHist, survivors, runClean] using hw
+  | cons x h ih =>
+    obtain ⟨c, ok⟩ := x
+    cases ok with
+    | none =>
+      simp only [runHist, survivors, runClean, List.foldl_cons]
+      exact ih _ _ (exec_log_congr sys w w2 c hw)
+    | some k =>
+      simp only [runHist, survivors]
+      cases hl : logged sys w c k with
+      | true =>
+        simp only [if_true, runClean, List.foldl_cons]
+        apply ih
+        rw [crashAt_log_of_logged sys w c k hl]
+        exact exec_log_congr sys w w2 c hw
+      | false =>
+        simp only [Bool.false_eq_true, if_false]
+        apply ih
+        rw [crashAt_log_of_not_logged sys w c k hl]
+        exact hw
+
+/-- The state every instance loads after such a history. -/
+theorem hist_state_eq_clean (sys : Sys S C Ev Er O T) (h : List (C × Option Nat))
+    (w : World C Ev Er O T) :
+    state sys (runHist sys w h) = state sys (runClean sys w (survivors sys w h)) :=
+  state_congr sys _ _ (hist_log_eq_clean sys h w w rfl)
+
+/-- Acknowledged requests are never lost, at history level: every request that ran to
+completion is among the survivors, in order. -/
+theorem hist_acked_survive (sys : Sys S C Ev Er O T) (h : List (C × Option Nat))
+    (w : World C Ev Er O T) :
+    (h.filterMap fun x => if x.2.isNone then some x.1 else none).Sublist (survivors sys w h) := by
+  induction h generalizing w with
+  | nil => simp [survivors]
+  | cons x h ih =>
+    obtain ⟨c, ok⟩ := x
+    cases ok with
+    | none => simpa [survivors] using ih _
+    | some k =>
+      simp only [survivors, List.filterMap_cons, Option.isNone_some, Bool.false_eq_true, if_false]
+      split
+      · exact List.Sublist.cons _ (ih _)
+      · exact ih _
+
+/-- Non-vacuity: in the demo system a history with a cut in the objects-ahead window and a
+later completed request has exactly the completed one in its log. -/
+example :
+    let w : World Unit Unit Unit Nat Nat := ⟨[], 0, []⟩
+    survivors demo w [((), some 1), ((), none), ((), some 3)] = [(), ()] ∧
+    (runHist demo w [((), some 1), ((), none), ((), some 3)]).log.length = 2 := by
+  decide
+
 /-! ### File-system mutations of the repository writer ("the published tree is still
 relying-party valid" at every cut between two file-system mutations) -/
 
